@@ -212,10 +212,14 @@ namespace bloch::runtime {
         ensureQubitActive(q);
         // Compute probability of |1>, sample, and collapse the state accordingly.
         size_t bit = size_t{1} << q;
+        double p0 = 0;
         double p1 = 0;
-        for (size_t i = 0; i < m_state.size(); ++i)
+        for (size_t i = 0; i < m_state.size(); ++i) {
             if (i & bit)
                 p1 += std::norm(m_state[i]);
+            else
+                p0 += std::norm(m_state[i]);
+        }
         std::uniform_real_distribution<double> dist(0.0, 1.0);
         double r = dist(rng);
 #ifdef BLOCH_VERIF_HOOKS
@@ -223,7 +227,11 @@ namespace bloch::runtime {
             r = verif::draw(this, "measure", q, p1, r);
 #endif
         int res = r < p1 ? 1 : 0;
-        double norm = std::sqrt(res ? p1 : 1 - p1);
+        // p1 can be an ulp short of 1: never report an outcome whose branch is empty, and
+        // normalise the kept branch by its own weight so the state stays a unit vector.
+        if (res == 0 && p0 == 0.0)
+            res = 1;
+        double norm = std::sqrt(res ? p1 : p0);
         for (size_t i = 0; i < m_state.size(); ++i) {
             if (((i & bit) ? 1 : 0) != res)
                 m_state[i] = 0;
